@@ -68,7 +68,9 @@ Record binding : Type := mkbinding {
   beager : fexpr;       (* Binding.eager *)
   bglobal : bool;       (* Binding.is_global (a constant here) *)
   bhandler : Z;         (* identity of the handler function *)
-  bacts : list action   (* what the handler does *)
+  bacts : list action;  (* what the handler does *)
+  bmacro : bool;        (* Binding.record_in_macro (a constant here) *)
+  bsave : Z             (* identity of the Binding.save_before callable (0 = the default) *)
 }.
 
 (* a binding together with its position in KeyBindings.bindings *)
@@ -288,14 +290,17 @@ Definition dec_action (s : sx) : option action :=
 
 Definition nonneg_keys (l : list Z) : bool := forallb (fun k => 0 <=? k) l.
 
+(* (keys filter eager is_global handler actions) or the same followed by (record_in_macro save_before) *)
 Definition dec_binding (s : sx) : option binding :=
+  let mk ks f eg gl hd acts mc sv :=
+    match as_str ks, dec_f f, dec_f eg, as_bool gl, map_opt dec_action acts, as_bool mc with
+    | Some ks', Some f', Some eg', Some gl', Some acts', Some mc' =>
+        if nonneg_keys ks' && negb (Nat.eqb (length ks') 0) then Some (mkbinding ks' f' eg' gl' hd acts' mc' sv) else None
+    | _, _, _, _, _, _ => None
+    end in
   match s with
-  | L [ks; f; eg; gl; A hd; L acts] =>
-      match as_str ks, dec_f f, dec_f eg, as_bool gl, map_opt dec_action acts with
-      | Some ks', Some f', Some eg', Some gl', Some acts' =>
-          if nonneg_keys ks' && negb (Nat.eqb (length ks') 0) then Some (mkbinding ks' f' eg' gl' hd acts') else None
-      | _, _, _, _, _ => None
-      end
+  | L [ks; f; eg; gl; A hd; L acts] => mk ks f eg gl hd acts (A 1) 0
+  | L [ks; f; eg; gl; A hd; L acts; mc; A sv] => mk ks f eg gl hd acts mc sv
   | _ => None
   end.
 
